@@ -33,10 +33,15 @@ var (
 	_ = log.RegisterLevel(400, "WARNING")
 	_ = log.RegisterLevel(250, "AUDIT2")
 	_ = log.RegisterLevel(700, "CRITICAL")
+	// ... registered in lower and mixed case: names are case-insensitive wherever they are written
+	_ = log.RegisterLevel(250, "audit3")
+	_ = log.RegisterLevel(998, "Top2")
+	_ = log.RegisterLevel(600, "pAnIc2")
 )
 
 // lvNames lists the names a level code can be written with in a range string.
-var lvNames = map[int32][]string{400: {"WARN", "WARNING"}, 250: {"AUDIT", "AUDIT2"}, 700: {"FATAL", "CRITICAL"}}
+var lvNames = map[int32][]string{400: {"WARN", "WARNING"}, 250: {"AUDIT", "AUDIT2", "audit3"}, 700: {"FATAL", "CRITICAL"},
+	998: {"TOP", "Top2"}, 600: {"PANIC", "pAnIc2"}}
 
 func lvName(rng *rand.Rand, l log.Level) string {
 	if ns, ok := lvNames[l.Code()]; ok {
